@@ -5,7 +5,7 @@ from .rules.defassign import rule_defassign
 from .rules.dispatch import rule_dispatch, rule_stable, rule_enginefill, rule_allnanfill
 from .rules.refusals import rule_assert, rule_kwsig, rule_raise, rule_regkey
 from .rules.truthy import rule_truthy
-from .rules.purity import rule_pure, rule_args, rule_global, rule_memo, rule_getter, rule_capture
+from .rules.purity import rule_pure, rule_args, rule_global, rule_memo, rule_getter, rule_capture, rule_options
 from .rules.token import rule_token
 from .rules.graph import rule_keys, rule_order, rule_cover, rule_axiskey, rule_contig, rule_loopstore, rule_bitmask, rule_meshindex, rule_wholepart, rule_sliceexact
 from .rules import misc as M
@@ -59,7 +59,7 @@ PROPERTIES = {
         "explanation": "R-PURE, R-PICKLE, R-NONDET, R-ARGS (a blueprint embedded in tasks is a private deep copy: later calls cannot change what an already built graph computes)",
     },
     "C14": {
-        "rules": [rule_args, rule_global, rule_memo, rule_token, rule_pure, rule_capture],
+        "rules": [rule_args, rule_global, rule_memo, rule_token, rule_pure, rule_capture, rule_options],
         "thorough": [selftest, seeded_regression],
         "technique": "interprocedural origins dataflow; registry typestate (deep-copied before any store); memoisation key/purity checks",
         "level_text": "Static, all-paths: API-reachable code never writes through an argument, the registry or a memoised result; the "
